@@ -1003,7 +1003,7 @@ func (f *Frame) execNext(x *ssa.Next, st *State) {
 
 // rangeKey is the state component holding the set of keys a map range has visited.
 func (f *Frame) rangeKey(rng *ssa.Range, keySort string) string {
-	key := fmt.Sprintf("R:%p:%s", f, rng.Name())
+	key := fmt.Sprintf("R:f%d:%s", f.fnum(), rng.Name())
 	f.vc.compSrt[key] = fmt.Sprintf("(Array %s Bool)", keySort)
 	return key
 }
